@@ -71,7 +71,9 @@ package srv
 // exactly once, after Run returned and after the shutdown goroutine signalled
 // completion; isFinished is stored before isRunning is cleared (protocol
 // steps, invariant J); the handler signal and then the main signal are closed;
-// a panic in Run or Cleanup is recovered into the collector and never escapes.
+// a panic in Run or Cleanup is recovered into the collector and never escapes;
+// isFinished is stored only after Cleanup has been called (Wait's fast path
+// must not return while Cleanup is still to run).
 //@ func (*Service).Start$1$4
 //@   props C10
 //@   option noframe
@@ -79,6 +81,7 @@ package srv
 //@   option callbacks-may-panic
 //@   option calls-after s.cancel s.Run; cleanup s.Run
 //@   option calls-when cleanup recvready(shutdownSignal) && closedch(ehSignal)
+//@   option atomic-write-when s.isFinished s.Cleanup == nil || calls(s.Cleanup) > old(calls(s.Cleanup))
 //@   requires s != nil && s.Run != nil && s.cancel != nil && ec != nil && ec == s.ec && ctx != nil && s.mylate == 0
 //@   requires mainSignal != nil && ehSignal != nil && shutdownSignal != nil && mainSignal != ehSignal && mainSignal != shutdownSignal && ehSignal != shutdownSignal && !closedch(mainSignal) && !closedch(ehSignal)
 //@   requires !held(s.wg.mu) && !held(ec.mu) && s.wg.credit >= 1
@@ -99,3 +102,12 @@ package srv
 //@   option calls-once eh
 //@   requires s != nil && ec != nil && ec == s.ec && mainSignal != nil && ehSignal != nil && !held(s.wg.mu) && !held(ec.mu) && s.wg.credit >= 1
 //@   ensures recvready(mainSignal) && recvready(ehSignal)
+
+// Close only cancels the service context: it is a participant of the protocol
+// (its atomic steps must preserve J) and may not clear isRunning itself.
+//@ func (*Service).Close
+//@   props C10
+//@   option noframe
+//@   option ghost any
+//@   requires s != nil && s.mylate == 0
+//@   ensures s.mylate == 0
